@@ -37,6 +37,21 @@ def gen_case(r, info=None):
         elif k < 93: ev.append(("send", n, r.choice([0x16, 0x19, 0x20, 0x05]), [r.below(256)]))   # budget pressure
         elif k < 96: ev.append(("up", n, r.below(256), r.choice([0x93, 0x95, 0x84]), [1, 65, 1, 66]))
         else: ev.append(("up", n, r.below(256), r.choice([0xA3, 0xA7, 0xA9]), [r.below(256) for _ in range(4)]))
+    # address reuse: a board is reported lost and another configured board (other SecAck setting or not) logs in at the same
+    # address; reports from that address follow (the SecAck decision belongs to the board connected there now)
+    if where and r.chance(1, 3):
+        i = r.choice(sorted(where)); a = where[i]; parent = a[:-1]; local = a[-1]
+        others = [j for j in range(4) if j not in where]
+        if others and not any(w[:len(a)] == a and w != a for w in where.values()):
+            j = r.choice(others)
+            ev.append(("up", parent, r.below(256), 0x8C, [r.below(256), local] + BOARDS[i][1]))
+            for _ in range(r.range(0, 2)): ev.append(("up", a, r.below(256), r.choice([0xA0, 0xA1]), [r.below(256)]))
+            ev.append(("up", parent, r.below(256), 0x8D, [r.below(256), local] + BOARDS[j][1]))
+            for _ in range(r.range(1, 4)):
+                k = r.below(3)
+                if k == 0: ev.append(("up", a, r.below(256), 0xA0, [r.below(256)]))
+                elif k == 1: ev.append(("up", a, r.below(256), 0xA1, [r.below(256)]))
+                else: ev.append(("up", a, r.below(256), 0xA2, [8 * r.below(8), 16] + [r.below(256), r.below(256)]))
     # lift every stall at the end
     for n in {e[1] for e in ev if e[0] == "up" and e[3] == 0x8E}: ev.append(("up", n, 0, 0x8E, [0]))
     return ev, where
@@ -98,10 +113,19 @@ def run(ck):
                 ck.violation("receiver-crash", {"property": "C19", "events": flowgen.ev_json(ev), "rc": rc, "stderr": err[-1200:]}); continue
             # oracle: per secack board, reports vs mirrors on the wire (spec payload), nothing for others
             tr = flowgen.trace_of(ev, il)
-            sec_nodes = {where[i] for i in where if BOARDS[i][2]}
+            # which board is connected where, followed through the session's node-new / node-lost notices
+            cur = {}; all_sec = set()
+            def upd(e):
+                if e[0] == "up" and e[3] in (0x8D, 0x8C) and len(e[4]) >= 9:
+                    uid = e[4][2:9]; bi = next((k for k in range(4) if BOARDS[k][1] == uid), None)
+                    if bi is None: return
+                    if e[3] == 0x8D: cur[bi] = tuple(e[1]) + (e[4][1],)
+                    else: cur.pop(bi, None)
             pend = {}   # node -> expected mirrors not yet seen
             stalled_any = any(e[0] == "up" and e[3] == 0x8E for e in ev)
             for (e, chunks) in tr:
+                upd(e)
+                sec_nodes = {a for bi, a in cur.items() if BOARDS[bi][2]}; all_sec |= sec_nodes
                 if e[0] == "up" and tuple(e[1]) in sec_nodes and e[3] in (0xA0, 0xA1, 0xA2, 0xAC):
                     d = e[4]; exp = None
                     if e[3] == 0xA0: exp = (0x22, d[:1])
@@ -117,7 +141,7 @@ def run(ck):
                         if ty in (0x21, 0x22, 0x23, 0x26):
                             mirrors += 1
                             q = pend.get(a, [])
-                            if a not in sec_nodes:
+                            if a not in sec_nodes and not (a in all_sec and q):
                                 bad += 1; ck.violation("mirror.to-non-secack-board", {"property": "C19", "events": flowgen.ev_json(ev), "impl": il, "reason": "mirror %s sent to node %s which has no SecAck feature" % (hexs(m), a)})
                             elif not q:
                                 bad += 1; ck.violation("mirror.duplicate", {"property": "C19", "events": flowgen.ev_json(ev), "impl": il, "reason": "unexpected/duplicate mirror %s" % hexs(m)})
